@@ -265,9 +265,14 @@ class Transformer(NamedTuple):
                 if name == 'deal':
                     return
 
-        # We insert the import after `__future__` imports and module imports.
+        # We insert the import after the shebang, the module docstring,
+        # `__future__` imports and module imports.
         # We don't skip `from` imports, though, because they can be multiline.
         line = 1
+        if tree.doc_node is not None and tree.doc_node.end_lineno is not None:
+            line = tree.doc_node.end_lineno + 1
+        elif self.content.startswith('#!'):
+            line = 2
         for stmt in tree.body:
             if isinstance(stmt, astroid.Import):
                 line = stmt.lineno + 1
